@@ -9,9 +9,11 @@ Open Scope string_scope.
 Open Scope Z_scope.
 
 (* ---------------- the recogniser in stages ---------------- *)
-Definition dtd_fin (neg : bool) (cd ch cmi : option (option Z)) (sec : option (Z * Z)) : option Z :=
+Definition dtd_fin (ro neg : bool) (cd ch cmi : option (option Z)) (sec : option (Z * Z)) : option Z :=
   let ok c := comp_present c && comp_fits c in
   let sec_ok := match sec with Some (v, _) => v <=? u64_max | None => false end in
+  let sec_fits := match sec with Some (v, _) => v <=? u64_max | None => true end in
+  if ro && negb (comp_fits cd && comp_fits ch && comp_fits cmi && sec_fits) then None else
   if ok cd || ok ch || ok cmi || sec_ok then
     let v c := if comp_fits c then comp_val c else 0 in
     let total := v cd * DAY_NS + v ch * HOUR_NS + v cmi * MIN_NS +
@@ -19,34 +21,34 @@ Definition dtd_fin (neg : bool) (cd ch cmi : option (option Z)) (sec : option (Z
     Some (if neg then - total else total)
   else None.
 
-Definition dtd_tail (trailing_t_ok neg : bool) (cd : option (option Z)) (s4 : string) : option Z :=
+Definition dtd_tail (trailing_t_ok ro neg : bool) (cd : option (option Z)) (s4 : string) : option Z :=
   let (ch, s5) := p_comp "H" s4 in
   let (cmi, s6) := p_comp "M" s5 in
   let (ds, s7) := span_digits s6 in
   match ds, s7 with
-  | [], "" => if String.eqb s4 "" && negb trailing_t_ok then None else dtd_fin neg cd ch cmi None
-  | _ :: _, String "S"%char "" => dtd_fin neg cd ch cmi (Some (num ds, 0))
+  | [], "" => if String.eqb s4 "" && negb trailing_t_ok then None else dtd_fin ro neg cd ch cmi None
+  | _ :: _, String "S"%char "" => dtd_fin ro neg cd ch cmi (Some (num ds, 0))
   | _ :: _, String "."%char s8 =>
     let (fs, s9) := span_digits s8 in
     match s9 with
-    | String "S"%char "" => dtd_fin neg cd ch cmi (Some (num ds, frac_nanos fs 100000000))
+    | String "S"%char "" => dtd_fin ro neg cd ch cmi (Some (num ds, frac_nanos fs 100000000))
     | _ => None
     end
   | _, _ => None
   end.
 
-Definition dtd_body (trailing_t_ok neg : bool) (s2 : string) : option Z :=
+Definition dtd_body (trailing_t_ok ro neg : bool) (s2 : string) : option Z :=
   let (cd, s3) := p_comp "D" s2 in
   match s3 with
-  | "" => dtd_fin neg cd None None None
-  | String "T"%char s4 => dtd_tail trailing_t_ok neg cd s4
+  | "" => dtd_fin ro neg cd None None None
+  | String "T"%char s4 => dtd_tail trailing_t_ok ro neg cd s4
   | _ => None
   end.
 
-Lemma parse_dtd_gen_pos : forall tt s2, parse_dtd_gen tt (String "P"%char s2) = dtd_body tt false s2.
+Lemma parse_dtd_gen_pos : forall tt ro s2, parse_dtd_gen tt ro (String "P"%char s2) = dtd_body tt ro false s2.
 Proof. reflexivity. Qed.
 
-Lemma parse_dtd_gen_neg : forall tt s2, parse_dtd_gen tt (String "-"%char (String "P"%char s2)) = dtd_body tt true s2.
+Lemma parse_dtd_gen_neg : forall tt ro s2, parse_dtd_gen tt ro (String "-"%char (String "P"%char s2)) = dtd_body tt ro true s2.
 Proof. reflexivity. Qed.
 
 (* ---------------- the printer in components ---------------- *)
@@ -110,12 +112,12 @@ Proof.
 Qed.
 
 (* the seconds group, three shapes *)
-Lemma dtd_tail_print : forall neg cd h mi s f, 0 <= h -> 0 <= mi -> 0 <= s -> 0 <= f < 1000000000 ->
+Lemma dtd_tail_print : forall ro neg cd h mi s f, 0 <= h -> 0 <= mi -> 0 <= s -> 0 <= f < 1000000000 ->
   (0 < h \/ 0 < mi \/ 0 < s \/ 0 < f) ->
-  dtd_tail false neg cd (comp_text "H" h ++ comp_text "M" mi ++ sec_text s f) =
-  dtd_fin neg cd (comp_of h) (comp_of mi) (sec_of s f).
+  dtd_tail false ro neg cd (comp_text "H" h ++ comp_text "M" mi ++ sec_text s f) =
+  dtd_fin ro neg cd (comp_of h) (comp_of mi) (sec_of s f).
 Proof.
-  intros neg cd h mi s f Hh Hm Hs Hf Pos. unfold dtd_tail.
+  intros ro neg cd h mi s f Hh Hm Hs Hf Pos. unfold dtd_tail.
   rewrite (p_comp_text "H" h _ Hh eq_refl (no_comp_H_min_sec mi s f Hm Hs ltac:(lia))).
   rewrite (p_comp_text "M" mi _ Hm eq_refl (no_comp_sec "M" s f Hs ltac:(lia) (or_intror eq_refl))).
   unfold sec_text, sec_of.
@@ -149,13 +151,13 @@ Proof.
 Qed.
 
 (* the components recombine to the total *)
-Lemma dtd_fin_total : forall neg d h mi s f,
+Lemma dtd_fin_total : forall ro neg d h mi s f,
   0 <= d <= u64_max -> 0 <= h < 24 -> 0 <= mi < 60 -> 0 <= s < 60 -> 0 <= f < NS ->
   0 < d * DAY_NS + h * HOUR_NS + mi * MIN_NS + s * NS + f ->
-  dtd_fin neg (comp_of d) (comp_of h) (comp_of mi) (sec_of s f) =
+  dtd_fin ro neg (comp_of d) (comp_of h) (comp_of mi) (sec_of s f) =
   Some (if neg then - (d * DAY_NS + h * HOUR_NS + mi * MIN_NS + s * NS + f) else d * DAY_NS + h * HOUR_NS + mi * MIN_NS + s * NS + f).
 Proof.
-  intros neg d h mi s f Hd Hh Hm Hs Hf Pos.
+  intros ro neg d h mi s f Hd Hh Hm Hs Hf Pos.
   assert (Hd64 : (d <=? u64_max) = true) by (apply Z.leb_le; lia).
   assert (Hh64 : (h <=? u64_max) = true) by (apply Z.leb_le; unfold u64_max; lia).
   assert (Hm64 : (mi <=? u64_max) = true) by (apply Z.leb_le; unfold u64_max; lia).
@@ -164,7 +166,7 @@ Proof.
   unfold DAY_NS, HOUR_NS, MIN_NS, NS in *.
   destruct (Z.ltb_spec 0 d); destruct (Z.ltb_spec 0 h); destruct (Z.ltb_spec 0 mi);
     destruct (Z.ltb_spec 0 s); destruct (Z.ltb_spec 0 f);
-    cbn [comp_present comp_fits comp_val andb orb]; rewrite ?Hd64, ?Hh64, ?Hm64, ?Hs64; cbn [andb orb];
+    cbn [comp_present comp_fits comp_val andb orb]; rewrite ?Hd64, ?Hh64, ?Hm64, ?Hs64; cbn [andb orb negb]; rewrite ?andb_false_r;
     try (f_equal; destruct neg; lia); exfalso; lia.
 Qed.
 
@@ -178,7 +180,7 @@ Proof.
   intros neg d h mi s f Hd Hh Hm Hs Hf Pos.
   assert (Hf' : 0 <= f < 1000000000) by exact Hf.
   set (rest := if (0 <? h) || (0 <? mi) || (0 <? s) || (0 <? f) then "T" ++ comp_text "H" h ++ comp_text "M" mi ++ sec_text s f else "").
-  assert (B : parse_dtd ((if neg then "-" else "") ++ "P" ++ comp_text "D" d ++ rest) = dtd_body false neg (comp_text "D" d ++ rest)).
+  assert (B : parse_dtd ((if neg then "-" else "") ++ "P" ++ comp_text "D" d ++ rest) = dtd_body false true neg (comp_text "D" d ++ rest)).
   { unfold parse_dtd. destruct neg; cbn [append]; [apply parse_dtd_gen_neg|apply parse_dtd_gen_pos]. }
   rewrite B. unfold dtd_body.
   assert (ND : no_comp "D" rest).
@@ -187,11 +189,11 @@ Proof.
   destruct ((0 <? h) || (0 <? mi) || (0 <? s) || (0 <? f)) eqn:C.
   - cbn [append]. cbv beta iota.
     assert (P1 : 0 < h \/ 0 < mi \/ 0 < s \/ 0 < f) by (rewrite !orb_true_iff, !Z.ltb_lt in C; tauto).
-    rewrite (dtd_tail_print neg (comp_of d) h mi s f ltac:(lia) ltac:(lia) ltac:(lia) Hf' P1).
+    rewrite (dtd_tail_print true neg (comp_of d) h mi s f ltac:(lia) ltac:(lia) ltac:(lia) Hf' P1).
     apply dtd_fin_total; assumption.
   - rewrite !orb_false_iff, !Z.ltb_ge in C.
     assert (h = 0) by lia. assert (mi = 0) by lia. assert (s = 0) by lia. assert (f = 0) by lia. subst h mi s f.
-    cbv beta iota. exact (dtd_fin_total neg d 0 0 0 0 Hd Hh Hm Hs Hf Pos).
+    cbv beta iota. exact (dtd_fin_total true neg d 0 0 0 0 Hd Hh Hm Hs Hf Pos).
 Qed.
 
 Theorem print_parse_dtd : forall n, dtd_days n <= u64_max -> parse_dtd (print_dtd n) = Some n.
@@ -217,16 +219,8 @@ Proof. vm_compute. split; reflexivity. Qed.
 Lemma parse_ymd_none : forall (neg : bool) body, no_comp "Y" body -> no_comp "M" body -> body <> "" ->
   parse_ymd ((if neg then "-" else "") ++ "P" ++ body) = None.
 Proof.
-  intros neg body NY NM NE.
-  assert (E : parse_ymd ((if neg then "-" else "") ++ "P" ++ body) =
-              let (cy, s3) := p_comp "Y" body in
-              let (cm, s4) := p_comp "M" s3 in
-              if String.eqb s4 "" && (comp_present cy && comp_fits cy || comp_present cm && comp_fits cm) then
-                let total := (if comp_fits cy then comp_val cy * 12 else 0) + (if comp_fits cm then comp_val cm else 0) in
-                Some (if neg then - total else total)
-              else None).
-  { destruct neg; reflexivity. }
-  rewrite E. unfold no_comp in NY, NM. rewrite NY, NM.
+  intros neg body NY NM NE. unfold parse_ymd. rewrite parse_ymd_gen_body.
+  unfold no_comp in NY, NM. rewrite NY, NM.
   destruct body as [|c t]; [congruence|reflexivity].
 Qed.
 
@@ -242,7 +236,7 @@ Qed.
 
 Theorem print_parse_duration_dtd : forall n, dtd_days n <= u64_max -> parse_duration (print_dtd n) = Some (DDt n).
 Proof.
-  intros n B. unfold parse_duration. rewrite (print_parse_dtd n B).
+  intros n B. unfold parse_duration, parse_duration_gen. rewrite (print_parse_dtd n B).
   destruct (Z.eq_dec n 0) as [->|N]; [reflexivity|].
   destruct (dtd_components n) as [Sum [Hd [Hh [Hm [Hs Hf]]]]].
   rewrite (print_dtd_text n N).
@@ -261,5 +255,5 @@ Proof.
     exfalso. rewrite !orb_false_iff, !Z.ltb_ge in C. unfold DAY_NS, HOUR_NS, MIN_NS, NS in *. lia.
 Qed.
 
-Theorem print_parse_duration_ymd : forall n, Z.abs n / 12 <= u64_max -> parse_duration (print_ymd n) = Some (DYm n).
-Proof. intros n B. unfold parse_duration. rewrite (print_parse_ymd n B). reflexivity. Qed.
+Theorem print_parse_duration_ymd : forall n, Z.abs n <= i64_max -> parse_duration (print_ymd n) = Some (DYm n).
+Proof. intros n B. unfold parse_duration, parse_duration_gen. rewrite (print_parse_ymd n B). reflexivity. Qed.
